@@ -380,6 +380,30 @@ impl World {
     true
   }
 
+  /// Poll the `choice`-th live task whether or not it was woken (a spurious
+  /// poll: legal under the `Future` contract). Returns false if none is live.
+  pub fn poll_any(&self, choice: usize) -> bool {
+    self.exec.absorb_woken(&self.shared);
+    let live: Vec<usize> = {
+      let slots = self.exec.slots.borrow();
+      (0..slots.len()).filter(|i| !slots[*i].done && !slots[*i].polling).collect()
+    };
+    if live.is_empty() {
+      return false;
+    }
+    let id = live[choice % live.len()];
+    {
+      let mut ready = self.exec.ready.borrow_mut();
+      if let Some(pos) = ready.iter().position(|x| *x == id) {
+        ready.remove(pos);
+      }
+      // put it at the front and run it
+      ready.push_front(id);
+      self.exec.slots.borrow_mut()[id].queued = true;
+    }
+    self.run_task(0)
+  }
+
   /// FIFO until nothing is ready (the `LocalPool::run_until_stalled` model).
   /// Returns the number of polls; stops after `budget` polls.
   pub fn run_ready_fifo(&self, budget: usize) -> usize {
